@@ -22,8 +22,14 @@ RULE = ("datasets written by the real accessors: plain (flat/deep x gzip on/off 
         "obtained by splitting), served by the loopback server configured as the documentation prescribes; every "
         "info + chunk (present, absent) fetched through get_accessor_for_url on http://127.0.0.1:port/... with/without "
         "trailing slash and precomputed:// prefix, and locally; scripted server behaviours (404, 500, 503, dropped "
-        "connection, short/over-long range reply, ignored Range) at every request index of a sharded fetch. "
+        "connection, short/over-long range reply, ignored Range, connection lost in the middle of the body with "
+        "Content-Length or chunked transfer, damaged Content-Encoding: gzip stream) at every request index of a sharded "
+        "fetch and on plain chunk / file / info fetches; multi-scale sharded datasets whose scales have different "
+        "sharding specs read through one accessor in both scale orders. "
         "non-trivial = dataset with >= 2 chunks fetched both ways")
+
+
+BODY_BEHS = ("cut-body", "cut-chunked", "bad-gzip")     # failures after a normal status line
 
 
 def run_impl(fn):
@@ -179,7 +185,8 @@ def plain_part(R, n):
                         R.violation("file_exists over HTTP differs from the local accessor's", case,
                                     {"http": e, "local": le})
             # scripted failures on a plain fetch
-            for beh in [("status", 404), ("status", 500), ("status", 503), ("status", 403), "drop", ("status", 204)]:
+            for beh in [("status", 404), ("status", 500), ("status", 503), ("status", 403), "drop", ("status", 204),
+                        "cut-body", "cut-chunked", "bad-gzip"]:
                 k, co = D["chunks"][0]
                 site.reset([beh])
                 h = run_impl(lambda: acc.fetch_chunk(k, tuple(co)))
@@ -195,10 +202,23 @@ def plain_part(R, n):
                 e = run_impl(lambda: acc.file_exists("info"))
                 reqs.append(("http_exists", [sc, wire_script([beh]), tree, b(acc.base_url), b"info"]))
                 pend.append(("exists", case, e, list(site.log), origin))
-                want = ["ok", False] if beh == ("status", 404) else ["ok", True] if beh == ("status", 204) else ["AccessErr"]
+                want = (["ok", False] if beh == ("status", 404)
+                        else ["ok", True] if beh == ("status", 204) or beh in BODY_BEHS else ["AccessErr"])
                 if e != want:
                     R.violation("file_exists under an HTTP failure: neither False (404) nor a data-access error",
                                 case, {"impl": e})
+                # the same failure while fetching a file (info, and one extra file when there is one)
+                for nm in ["info"] + D["extras"][:1]:
+                    site.reset([beh])
+                    hf = run_impl(lambda: acc.fetch_file(nm))
+                    reqs.append(("http_fetch", [sc, wire_script([beh]), tb, tree, b(acc.base_url), b(nm)]))
+                    cf = {**case0, "fetch": ["file", nm, None], "behaviour": list(beh) if isinstance(beh, tuple) else beh}
+                    pend.append(("fetch", cf, hf, list(site.log), origin))
+                    R.case(cf, nontrivial=True)
+                    R.count(f"plain:scripted-file:{beh if isinstance(beh, str) else beh[1]}:{hf[0] if hf[0] != 'Crash' else hf[1]}")
+                    if beh != ("status", 204) and hf != ["AccessErr"]:
+                        R.violation("HTTP / connection failure while fetching a file of a plain dataset not reported "
+                                    "as a data-access error", cf, {"impl": h12._short(hf)})
     rep = R.model.batch(reqs)
     for (kind, case, impl, log, origin), m in zip(pend, rep):
         if kind == "dispatch":
@@ -370,9 +390,9 @@ def sharded_part(R, n):
                     R.violation("local sharded read differs from what was stored", case, {})
                 # scripted behaviours
                 behs = [("status", 500), ("status", 404), ("status", 503), "drop", "short", "long", "ignore-range",
-                        ("status", 204)]
+                        ("status", 204), "cut-body", "cut-chunked", "bad-gzip"]
                 for k in range(nreq):
-                    for beh in rng.sample(behs, 3):
+                    for beh in rng.sample(behs, 4):
                         script = ["normal"] * k + [beh]
                         acc2 = accessor.get_accessor_for_url(url)
                         site.reset(script)
@@ -385,9 +405,14 @@ def sharded_part(R, n):
                             reqs.append(("hs_fetch", [sc, wire_script(script), tree, b(scale_url), b(name), hl,
                                                       cmc, wloc]))
                             pend.append(("hs", c2, h2, list(site.log), origin, enc))
-                        # oracle: never data that differs from the local read
+                        # oracle: never data that differs from the local read; a failure that changes
+                        # the outcome must surface as a data-access / I/O error
                         if h2[0] == "ok" and h2 != loc:
                             R.violation("server misbehaviour turned into wrong data", c2, {"http": h12._short(h2)})
+                        elif h2 != h and h2 not in (["IOErr"], ["AccessErr"]):
+                            R.violation("server / connection failure during a sharded fetch surfaced as something "
+                                        "else than a data-access / I/O error", c2,
+                                        {"http": h12._short(h2), "fault_free": h12._short(h)})
     rep = R.model.batch(reqs)
     for (kind, case, impl, log, origin, enc), m in zip(pend, rep):
         if kind == "dispatch":
@@ -409,6 +434,85 @@ def sharded_part(R, n):
             mo = decode_model(m[0], enc)
             if not bout_matches(mo, impl) or not ok:
                 R.disagree("HttpShard fetch vs model", case, [h12._short(impl), log], [h12._short(mo), want])
+
+
+def multiscale_part(R, n):
+    """Sharded datasets with several scales whose `sharding` objects DIFFER (bit triple, data and
+    index encoding), every chunk of every scale read through ONE accessor instance, in both scale
+    orders, and compared with the local read and with what was stored."""
+    import contextlib
+    import io
+    import numpy as np
+    from neuroglancer_scripts import accessor, sharded_base as sb
+    from neuroglancer_scripts.sharded_file_accessor import ShardedFileAccessor
+    rng = R.rng
+    reqs, pend = [], []
+    for i in range(n):
+        root = os.path.join(R.tmp, f"mssite{i}")
+        ds = os.path.join(root, "ds")
+        nscales = 2 + (i % 2)
+        triples = rng.sample(TRIPLES, nscales)
+        scales, specs = [], {}
+        for si in range(nscales):
+            key = ["1mm", "2mm", "4mm"][si]
+            enc = ["raw", "gzip"][(i + si) % 2]
+            idx_enc = "gzip" if (i + si) % 3 == 0 else "raw"
+            size = [max(64, 256 >> si), max(64, 128 >> si), 64]
+            sc1 = sharded_info(triples[si], enc, idx_enc, size)["scales"][0]
+            sc1["key"] = key
+            scales.append(sc1)
+            specs[key] = (triples[si], enc, idx_enc, size)
+        info = {"type": "image", "data_type": "uint8", "num_channels": 1, "scales": scales}
+        w = ShardedFileAccessor(ds)
+        w.store_file("info", json.dumps(info).encode(), mime_type="application/json")
+        content = {}
+        for key, (triple, enc, idx_enc, size) in specs.items():
+            grid = [-(-x // 64) for x in size]
+            for x in range(grid[0]):
+                for y in range(grid[1]):
+                    c = (x * 64, x * 64 + 64, y * 64, y * 64 + 64, 0, 64)
+                    content[(key, c)] = bytes([len(content) + 1]) * rng.randrange(1, 12)
+                    w.store_chunk(content[(key, c)], key, c)
+        with contextlib.redirect_stdout(io.StringIO()):
+            w.close()
+        site = httpd.Site(root, rewrite=False, gzip_static=True)
+        tree = tagged_tree(root)
+        with httpd.Server(site) as s:
+            origin = s.url
+            sc = [b(origin), b(root), False, True]
+            for order in (list(specs), list(reversed(list(specs)))):
+                acc = accessor.get_accessor_for_url(origin + "/ds")
+                local = ShardedFileAccessor(ds)
+                for key in order:
+                    triple, enc, idx_enc, size = specs[key]
+                    for (k2, c), data in content.items():
+                        if k2 != key:
+                            continue
+                        h = run_impl(lambda: acc.fetch_chunk(key, c))
+                        loc = run_impl(lambda: local.fetch_chunk(key, c))
+                        case = {"dataset": "sharded-multiscale", "scales": {k3: [list(v[0]), v[1], v[2]]
+                                                                            for k3, v in specs.items()},
+                                "order": order, "scale": key, "chunk": list(c)}
+                        R.case(case, nontrivial=True)
+                        R.count(f"multiscale:{h[0] if h[0] != 'Crash' else h[1]}")
+                        if h != ["ok", data] or loc != ["ok", data]:
+                            R.violation("chunk of a multi-scale sharded dataset (per-scale sharding specs) read through "
+                                        "one accessor differs from what was stored / from the local read", case,
+                                        {"http": h12._short(h), "local": h12._short(loc), "stored": h12._short(data)})
+                        if idx_enc == "raw" and order == list(specs):
+                            spec = sb.ShardSpec(triple[1], triple[2], preshift_bits=triple[0])
+                            with np.errstate(all="ignore"):
+                                cmc = int(sb.ShardVolumeSpec([64, 64, 64], size).get_cmc(list(c)))
+                                skey = sb.CMCReadWrite(spec).get_shard_key(np.uint64(cmc))
+                            name = hex(int(skey))[2:].rjust(-(-triple[2] // 4), "0")
+                            reqs.append(("hs_fetch", [sc, [], tree, b(origin + f"/ds/{key}/"), b(name),
+                                                      16 * 2 ** triple[1], cmc, local_locate(ds, key, list(c))]))
+                            pend.append((case, h, enc))
+    rep = R.model.batch(reqs)
+    for (case, impl, enc), m in zip(pend, rep):
+        mo = decode_model(m[0], enc)
+        if not bout_matches(mo, impl):
+            R.disagree("multi-scale sharded fetch vs model (outcome)", case, h12._short(impl), h12._short(mo))
 
 
 # ----------------------------------------------------------------- dispatch / URL normalisation
@@ -455,7 +559,7 @@ def dispatch_part(R, n):
             opts["sharding"] = rng.choice([None, True, False])
         script = []
         if rng.random() < 0.3:
-            script = [rng.choice([("status", 500), ("status", 404), "drop"])]
+            script = [rng.choice([("status", 500), ("status", 404), "drop", "cut-body", "cut-chunked", "bad-gzip"])]
             if rng.random() < 0.5:
                 script = ["normal"] + script
         site = httpd.Site(root, rewrite=True, gzip_static=True)
@@ -516,6 +620,7 @@ def run(R):
     dispatch_part(R, 40 if quick else 600)
     plain_part(R, 24 if quick else 600)
     sharded_part(R, 21 if quick else 400)
+    multiscale_part(R, 6 if quick else 120)
 
 
 def replay(R, payload):
